@@ -1,6 +1,6 @@
 (* PaperProofs.v — C09: the shadow ("paper") copy of a sub-strategy is the stand-alone backtest of the same
    definition: same initial state, same step function; the parent only copies its price. *)
-From Coq Require Import List Bool Arith ZArith.
+From Coq Require Import List Bool Arith ZArith Lia.
 Import ListNotations.
 Require Import BT.Num BT.Base BT.Records BT.Engine BT.Ops BT.Algos BT.Proofs.Tac.
 
@@ -35,7 +35,49 @@ Theorem paper_step_is_backtest_step (e : env N) (l i : nat) (p p1 : tree) :
        (fun p3 => refresh (bt_paper_step e l) p3).
 Proof.
   intros H1 Hb. unfold bt_paper_step at 1. cbn [paper_step_l]. fold (bt_paper_step e l).
-  rewrite H1. cbn [bind]. destruct (strat_run _ _ _ _ p1); reflexivity.
+  rewrite H1. cbn [bind]. destruct (fst p1) as [s|g k lz pp]; [contradiction|]. rewrite Hb.
+  destruct (strat_run _ _ _ _ p1); reflexivity.
+Qed.
+
+(* ... and once the first update of a date leaves the copy flagged bankrupt, its stack is not run and it is not updated
+   again on that date — exactly what Backtest.run does with a bankrupt strategy *)
+Theorem paper_step_when_bankrupt (e : env N) (l i : nat) (p p1 : tree) :
+  root_update (bt_paper_step e l) (Some i) p = Ok p1 ->
+  (match fst p1 with NStrat g _ _ _ => g_bankrupt g = true | NSec _ => False end) ->
+  bt_paper_step e (S l) (Some i) p = refresh (bt_paper_step e l) p1.
+Proof.
+  intros H1 Hb. unfold bt_paper_step at 1. cbn [paper_step_l]. fold (bt_paper_step e l).
+  rewrite H1. cbn [bind]. destruct (fst p1) as [s|g k lz pp]; [contradiction|]. rewrite Hb. reflexivity.
 Qed.
 
 End Paper.
+
+(* ---- what the parent sees ---- *)
+Section PaperPrice.
+Variable N : num.
+Variable A : Type.
+Variable ps : option nat -> tree N A -> result (tree N A).
+
+(* a sub-strategy's price is the price of its paper copy, on every update (and its price row of that date too) *)
+Theorem child_price_is_paper_price date inow np (g g' : strat N A) kids paper paper' :
+  strat_finish ps date inow np g kids paper = Ok (g', paper') ->
+  g_paper_trade g = true ->
+  exists p', paper' = Some p' /\ g_price g' = root_price p' /\
+             ((inow < length (hg_prices g))%nat -> nth inow (hg_prices g') (n0 N) = root_price p').
+Proof.
+  unfold strat_finish. intros H Hp. apply bind_ok in H. destruct H as (gu & Eu & H).
+  assert (Hpu : g_paper_trade (strat_set_rows inow gu) = true /\ hg_prices (strat_set_rows inow gu) = hg_prices g).
+  { destruct (has_strat_kids kids); [destruct date; [|discriminate]; inversion Eu; destruct g; cbn in *; auto | inversion Eu; subst gu; destruct g; cbn in *; auto]. }
+  destruct Hpu as [Hpt Hpr]. rewrite Hpt in H. destruct paper as [p|]; [|discriminate].
+  apply bind_ok in H. destruct H as (p1 & E1 & H). inversion H; subst. exists p1. split; [reflexivity|].
+  unfold strat_set_price. split.
+  - destruct (strat_set_rows inow gu); reflexivity.
+  - intros Hl. assert (G : hg_prices (set_hg_prices (upd inow (root_price p1) (hg_prices (strat_set_rows inow gu)))
+                                  (set_g_price (root_price p1) (strat_set_rows inow gu)))
+                           = upd inow (root_price p1) (hg_prices g)).
+    { rewrite <- Hpr. destruct (strat_set_rows inow gu); reflexivity. }
+    rewrite G. clear - Hl. revert inow Hl. induction (hg_prices g) as [|x l IH]; intros i Hl; [cbn in Hl; lia|].
+    destruct i; cbn; [reflexivity|]. apply IH. cbn in Hl. lia.
+Qed.
+
+End PaperPrice.
